@@ -797,3 +797,25 @@ contract(
     note="integer forms (x, y, z, t), (y, t) and (y,): every negative entry wraps against width / height, "
          "row forms leave the columns open (None)",
 )
+
+
+def _area_cols(a, r, p):
+    w = vlen(a.self, "cols")
+    c = a.coord
+    last = c[1] if len(c) == 2 else c[0]
+    return S.And(_is_none(r[1]), _is_none(r[3]), _wrapped(c[0], w, r[0]), _wrapped(last, w, r[2]))
+
+
+contract(
+    "odfdo.table:Table._translate_column_coordinates_list",
+    sig=[dict(self=_table(), coord=TupleOf(Int, Int, Int, Int)),
+         dict(self=_table(), coord=TupleOf(Int, Int)),
+         dict(self=_table(), coord=TupleOf(Int))],
+    requires=lambda a: S.And(inv_vault(a.self, "rows"), inv_vault(a.self, "cols")),
+    ensures=[Clause("column-area-negative-from-end", {"C19"},
+                    lambda a, r, p: _area4(a, r, p) if len(a.coord) == 4 else _area_cols(a, r, p))],
+    result=TupleOf(OptInt, OptInt, OptInt, OptInt),
+    concretize=concretize_vault, gen=gen_vault, observer=True,
+    note="integer forms (x, y, z, t), (x, z) and (x,): every negative entry wraps against width / height, "
+         "column forms leave the rows open (None)",
+)
